@@ -310,6 +310,18 @@ def floor(tier):
     out.append({"kind": "lines", "poly": U, "nonconvex": True,
                 "pts": [[-3, -2], [3, -2], [-3, -1], [1, 3], [0, -2], [0, 0], [-4, -2], [0, -2]],
                 "edges": [[0, 1], [2, 3], [4, 5], [6, 7]]})
+    # comb: a horizontal segment is cut into three inside pieces and in addition touches
+    # the tip of a spike between two teeth in an isolated point (shapely returns a
+    # GeometryCollection of several lines and a point)
+    comb = [[0, 0], [16, 0], [16, 8], [12, 8], [12, 4], [10, 4], [10, 8], [6, 8], [6, 4],
+            [5, 6], [4, 4], [4, 8], [0, 8]]
+    out.append({"kind": "lines", "poly": comb, "nonconvex": True, "tags": [[3, 4, 5, 6]],
+                "pts": [[-2, 6], [18, 6], [18, 6], [-2, 6], [1, 6], [15, 6], [-2, 7], [18, 7]],
+                "edges": [[0, 1], [2, 3], [4, 5], [6, 7]]})
+    comb2 = [[x - 8, 4 - y] for x, y in comb][::-1]     # mirrored, shifted, still ccw
+    out.append({"kind": "lines", "poly": comb2, "nonconvex": True,
+                "pts": [[-10, -2], [10, -2], [-7, -2], [7, -2], [-10, -3], [10, -3]],
+                "edges": [[0, 1], [2, 3], [4, 5]]})
     box = _box_faces((0, 0, 0), (4, 4, 4))
     B = [[list(v) for v in f] for f in box]
     out.append({"kind": "polys", "type": "box", "faces": B, "polygons": [
